@@ -193,6 +193,8 @@ def main():
     try:
         res = X.run_single_path(run, name="C15")
     except SymError as e:
+        # an undecided guard stops the symbolic run: look at the real code on concrete data before calling it inconclusive
+        replay(chk, cc, rw, rng, "symbolic run stopped: %s" % e)
         chk.inconclusive("C15", str(e))
         return chk.finish("inconclusive")
     except Exception as e:
